@@ -31,7 +31,7 @@ func generateProbesImpl(repo string, probes []ProbeConfig, tier string) (string,
 	if out, err := exec.Command("rsync", "-a", "--exclude", ".git", "--exclude", "_examples", "--exclude", "docs", repo+"/", dst+"/").CombinedOutput(); err != nil {
 		return scratch, nil, fmt.Errorf("rsync: %v: %s", err, out)
 	}
-	env := append(os.Environ(), "GOFLAGS=-mod=mod", "GOPROXY=off")
+	env := append(os.Environ(), "GOFLAGS=-mod=mod -trimpath", "GOPROXY=off")
 	gen := filepath.Join(scratch, "gqlgen-gen")
 	b := exec.Command("go", "build", "-o", gen, "./testdata/gqlgen.go")
 	b.Dir = dst
